@@ -7,6 +7,7 @@ spec operation; `resOf` maps its answer.
 -/
 import CV.Proofs.StoreKV
 import CV.Proofs.StoreSorted
+import CV.Proofs.StoreCascade2
 namespace CV.Store
 open CV
 
@@ -212,10 +213,7 @@ def specReplay (live : String → Bool) (m : KMap) : Log → KMap
 def KvLog (log : Log) : Prop :=
   ∀ ic ∈ log, ∃ op, kvOpOf ic.2 = some op ∧ ∀ p, op = .deleteTree p → noNulEnd p = true
 
-/-- FULL STATEMENT: for every log of arbitrary commands the KV table follows the sequential map, where
-    non-KV commands act on the map only by releasing / deleting the keys of the sessions they end.
-    Proved here for logs of KV commands (`history_refines_partial`); for the other command families the
-    per-command facts are `lock_inv_step`, `session_end_same_step` (C04) and the correspondence run. -/
+/-- (KV-only histories; the general statement is `history_refines` below.) -/
 theorem history_refines_partial (s : State) (log : Log) (h : KvLog log) :
     abs (replay s log) = specReplay (sessionLive s) (abs s) log := by
   induction log generalizing s with
@@ -229,6 +227,85 @@ theorem history_refines_partial (s : State) (log : Log) (h : KvLog log) :
     simp only [replay, List.foldl_cons, specReplay, hop] at ih ⊢
     rw [← hstep, ← hsess]
     exact ih (apply s i c).1 hrest
+
+/-- the sequential map's reaction to ONE command of any non-transaction type: a KV verb is a `specStep`;
+    every other command acts on the map only through the sessions it ends (`specEnd`: the keys of the
+    sessions that are gone afterwards are released or deleted by behaviour, nothing else moves) -/
+def specCmd (m : KMap) (s s' : State) (idx : Nat) (c : Cmd) : KMap :=
+  match kvOpOf c with
+  | some op => (specStep m (sessionLive s) idx op).1
+  | none => specEnd m idx (fun h => !sessionLive s' h) (behOf s)
+
+/-- not a transaction, and a delete-tree prefix that does not end in NUL -/
+def PlainCmd (c : Cmd) : Prop := (∀ ops, c ≠ .txn ops) ∧ (∀ p, c = .kvDeleteTree p → noNulEnd p = true)
+
+/-- Refinement for EVERY non-transaction command — KV verbs, session create / destroy, register,
+    deregister of a node / service / check (with all cascades), tombstone reap, prepared queries —
+    from any state satisfying the lock invariant. -/
+theorem cmd_refines (s : State) (hinv : LockInv s) (idx : Nat) (c : Cmd) (hc : PlainCmd c) :
+    abs (apply s idx c).1 = specCmd (abs s) s (apply s idx c).1 idx c := by
+  unfold specCmd
+  cases hk : kvOpOf c with
+  | some op =>
+    simp only
+    exact (kv_refines s idx c op hk (by
+      intro p hp
+      cases c <;> simp only [kvOpOf] at hk <;> try (cases hk)
+      all_goals (first | (cases hp; exact hc.2 _ rfl) | cases hp))).1
+  | none =>
+    simp only
+    by_cases he : c.endsSessionsOnly = true
+    · exact ends_only_refines s hinv idx c he
+    · -- what is left is session create: the KV table is untouched and no holder disappears
+      cases c <;> simp [Cmd.endsSessionsOnly, kvOpOf] at he hk
+      · rename_i r
+        have hview : (apply s idx (.sessionCreate r)).1.kvs = s.kvs ∧
+            ∀ h, sessionLive s h = true → sessionLive (apply s idx (.sessionCreate r)).1 h = true := by
+          simp only [apply]
+          cases hq : sessionCreate s idx r with
+          | error e => exact ⟨rfl, fun _ hl => hl⟩
+          | ok s' => exact sessionCreate_view hq
+        unfold abs specEnd
+        rw [hview.1]
+        symm
+        apply filterMap_self
+        intro x hx
+        simp only [absKV, List.mem_map] at hx
+        obtain ⟨e, he', rfl⟩ := hx
+        by_cases hs : e.session = ""
+        · simp [toEnt, hs]
+        · have := hview.2 e.session (sessionLive_of_live (hinv.1 e he' hs))
+          simp [toEnt, this]
+      · rename_i ops
+        exact absurd rfl (hc.1 ops)
+
+/-- the sequential map along a history (the implementation's session tables tell the specification
+    which sessions exist, exactly as `live` does in `specStep`) -/
+def specHistory : State → KMap → Log → KMap
+  | _, m, [] => m
+  | s, m, (i, c) :: rest => specHistory (apply s i c).1 (specCmd m s (apply s i c).1 i c) rest
+
+/-- History refinement: for every history of non-transaction commands of ALL types — arbitrary keys,
+    values, flags, indexes, interleaved with session creation / destruction, catalog registration and
+    deregistration with their cascades, and tombstone reaping — the KV table is, after every prefix,
+    exactly the sequential versioned map. (Transactions: each KV verb inside is the direct command —
+    `kv_txn_verb_is_direct_command` — and every other verb only releases or deletes rows —
+    `create_index_stable_txn_op`; the transaction as a whole is the fold of its verbs, CV.Props.C05.) -/
+theorem history_refines (s : State) (hinv : LockInv s) (log : Log) (h : ∀ ic ∈ log, PlainCmd ic.2) :
+    abs (replay s log) = specHistory s (abs s) log := by
+  induction log generalizing s with
+  | nil => rfl
+  | cons ic rest ih =>
+    obtain ⟨i, c⟩ := ic
+    have hc := h (i, c) (by simp)
+    simp only [replay, List.foldl_cons, specHistory] at ih ⊢
+    rw [← cmd_refines s hinv i c hc]
+    exact ih (apply s i c).1 (lockInv_apply i c hinv) (fun x hx => h x (by simp [hx]))
+
+/-- from the empty store in particular -/
+theorem history_refines_from_empty (log : Log) (h : ∀ ic ∈ log, PlainCmd ic.2) :
+    abs (replay State.empty log) = specHistory State.empty [] log :=
+  history_refines State.empty lockInv_empty log h
 
 /-! ### non-vacuity -/
 
@@ -251,6 +328,15 @@ example : KvLog [(4, .kvSet ⟨[97], "=w", 1, "", 0, 0, 0⟩), (5, .kvDeleteTree
   · exact ⟨_, rfl, by intro p hp; cases hp⟩
   · exact ⟨_, rfl, by intro p hp; cases hp; decide⟩
   · exact ⟨_, rfl, by intro p hp; cases hp⟩
+
+/-- a history mixing all command families satisfies the hypothesis of `history_refines` -/
+example : ∀ ic ∈ ([(1, .register ⟨⟨"n1", "", "a", 0, 0⟩, none, []⟩), (2, .sessionCreate ⟨"s", "n1", "", "delete", [], 0⟩),
+    (3, .kvLock ⟨[97], "=v", 0, "s", 0, 0, 0⟩), (4, .deregister "n1" "" ""), (5, .kvDeleteTree [97, 47])] : Log),
+    PlainCmd ic.2 := by
+  intro ic hic
+  simp at hic
+  rcases hic with rfl | rfl | rfl | rfl | rfl <;>
+    exact ⟨(by intro ops h; cases h), (by intro p h; first | (cases h; decide) | cases h)⟩
 
 example : noNulEnd [] = true ∧ noNulEnd [97, 47] = true ∧ noNulEnd [97, 0] = false := by decide
 
